@@ -38,8 +38,10 @@ _XSD = """<xs:schema xmlns:xs="http://www.w3.org/2001/XMLSchema" targetNamespace
    <xs:element name="lr" minOccurs="0"><xs:simpleType><xs:restriction><xs:simpleType><xs:list itemType="xs:int"/></xs:simpleType>
         <xs:length value="2"/></xs:restriction></xs:simpleType></xs:element>
    <xs:element name="u1" type="UR1" minOccurs="0"/><xs:element name="u2" type="U" minOccurs="0"/>
+   <xs:element name="ec" minOccurs="0"><xs:complexType><xs:attribute name="a" type="xs:int"/></xs:complexType></xs:element>
    <xs:element name="mx" minOccurs="0"><xs:complexType mixed="true"><xs:sequence><xs:element name="k2" type="xs:string" minOccurs="0"/></xs:sequence></xs:complexType></xs:element>
  </xs:sequence><xs:attribute name="id" type="xs:int" use="required"/>
+ <xs:attribute name="fx" type="xs:string" fixed="X"/>
  <xs:attribute name="sz"><xs:simpleType><xs:list itemType="xs:int"/></xs:simpleType></xs:attribute></xs:complexType></xs:element></xs:schema>"""
 SCHEMA = xmlschema.XMLSchema10(_XSD)
 CONV = {
@@ -107,14 +109,20 @@ def _instance(kw):
     return xml
 
 
+def _attrs(elem):
+    # the fixed attribute fx is reported by the decoder even when absent, so it comes back explicitly: same infoset after
+    # schema normalisation
+    return sorted(a for a in elem.attrib if a != 'fx')
+
+
 def _shape(elem, text=False, inside=False):
     # lossless converters: the character data of the mixed-content element mx is part of the round trip (simple-typed
     # values are compared in the value space by the decode comparison: '01' legitimately comes back as '1')
     mixed = elem.tag.endswith('}mx')
     if text and (mixed or inside):
-        return (elem.tag, sorted(elem.attrib), (elem.text or '').strip(), (elem.tail or '').strip() if inside else '',
+        return (elem.tag, _attrs(elem), (elem.text or '').strip(), (elem.tail or '').strip() if inside else '',
                 [_shape(c, True, mixed) for c in elem])
-    return (elem.tag, sorted(elem.attrib), [_shape(c, text) for c in elem])
+    return (elem.tag, _attrs(elem), [_shape(c, text) for c in elem])
 
 
 def h_roundtrip(**kw) -> bool:
@@ -155,7 +163,8 @@ def _norm(d):
 
 
 MUTATIONS = ["drop-a", "drop-id", "retype-a-str", "retype-a-none", "dup-a-list", "add-unknown", "add-unknown-attr", "b-to-int", "c-to-str",
-             "reorder", "l-bad-item", "id-str", "lr-wrong-count", "lr-too-many", "sz-bad-item"]
+             "reorder", "l-bad-item", "id-str", "lr-wrong-count", "lr-too-many", "sz-bad-item",
+             "fx-wrong", "ec-text", "tail-text"]
 
 
 def _mutate(data, m):
@@ -190,6 +199,12 @@ def _mutate(data, m):
         d['p:lr'] = [1, 2, 3]
     elif m == "sz-bad-item":
         d['@sz'] = [1, 'x']
+    elif m == "fx-wrong":
+        d['@fx'] = 'Y'              # a value different from the attribute's fixed value
+    elif m == "ec-text":
+        d['p:ec'] = {'@a': 1, '$': 'boo'}          # character data for a complex type with an empty content model
+    elif m == "tail-text":
+        d['p:c'] = {'$': 'stray'}                  # character data in an element-only content
     return d
 
 
